@@ -482,6 +482,11 @@ func chunkUploader(ctx context.Context,
 				return err
 			}
 
+			// only now are these keys safely part of the index: a failed attempt is retried with the same keys
+			if err := dbReader.MarkUploaded(); err != nil {
+				return err
+			}
+
 			uploaded := dbReader.Count()
 			atomic.AddUint64(uploadKeysPtr, uploaded)
 
@@ -1062,6 +1067,7 @@ type dbReader struct {
 	logger    *zap.Logger
 	partial   []byte
 	maxKeys   uint64
+	streamed  [][]byte // keys handed out to the current upload
 }
 
 func newDBReader(ctx context.Context, db kvStore, indexTime time.Time, logger *zap.Logger, maxKeys uint64) *dbReader {
@@ -1165,10 +1171,8 @@ func (r *dbReader) Read(p []byte) (int, error) {
 			b = key
 			b = append(b, '\n') // add newline to separate keys
 
-			// mark key as read in the DB
-			if err := r.db.Set(key, []byte("X")); err != nil {
-				return 0, fmt.Errorf("failed to mark KV key as read: %w", err)
-			}
+			// remember the key: it is marked as uploaded in the DB once the chunk has been successfully written
+			r.streamed = append(r.streamed, key)
 
 			r.count++
 		}
@@ -1186,6 +1190,20 @@ func (r *dbReader) Read(p []byte) (int, error) {
 
 func (r *dbReader) Close() error {
 	return r.group.Wait()
+}
+
+// MarkUploaded marks all keys streamed by this reader as uploaded, so the next chunk skips them.
+func (r *dbReader) MarkUploaded() error {
+	r.mx.Lock()
+	defer r.mx.Unlock()
+
+	for _, key := range r.streamed {
+		if err := r.db.Set(key, []byte("X")); err != nil {
+			return fmt.Errorf("failed to mark KV key as read: %w", err)
+		}
+	}
+
+	return nil
 }
 
 func max(a, b int) int {
